@@ -52,6 +52,7 @@ theorem fits_scalar (t : CqlTy) (s : Scalar) (b : Bytes) :
       | .native n => s.serNatives.contains n
       | _ => false) := by
   rw [fits]; simp only [strip, Bool.not_false, Bool.true_or, Bool.true_and]
+  cases t <;> rfl
 
 theorem fits_vec (t : CqlTy) (vs : List RVal) :
     fits t (.vec vs) = (match t with
@@ -60,6 +61,7 @@ theorem fits_vec (t : CqlTy) (vs : List RVal) :
       | .vector elt dim => decide (vs.length = dim) && allB (fun v => fits elt v) vs
       | _ => false) := by
   rw [fits]; simp only [strip, Bool.not_false, Bool.true_or, Bool.true_and]
+  cases t <;> rfl
 
 theorem fits_set (t : CqlTy) (vs : List RVal) :
     fits t (.set vs) = (match t with
@@ -67,18 +69,21 @@ theorem fits_set (t : CqlTy) (vs : List RVal) :
       | .set elt => allB (fun v => fits elt v) vs
       | _ => false) := by
   rw [fits]; simp only [strip, Bool.not_false, Bool.true_or, Bool.true_and]
+  cases t <;> rfl
 
 theorem fits_map (t : CqlTy) (kvs : List (RVal × RVal)) :
     fits t (.map kvs) = (match t with
       | .map kt vt => allB (fun kv => fits kt kv.1 && fits vt kv.2) kvs
       | _ => false) := by
   rw [fits]; simp only [strip, Bool.not_false, Bool.true_or, Bool.true_and]
+  cases t <;> rfl
 
 theorem fits_tuple (t : CqlTy) (fs : List RVal) :
     fits t (.tuple fs) = (match t with
       | .tuple ts => decide (fs.length ≤ ts.length) && fitsTuple ts fs
       | _ => false) := by
   rw [fits]; simp only [strip, Bool.not_false, Bool.true_or, Bool.true_and]
+  cases t <;> rfl
 
 theorem dims_vec (t : CqlTy) (vs : List RVal) :
     dimsOk t (.vec vs) = (match t with
@@ -87,6 +92,7 @@ theorem dims_vec (t : CqlTy) (vs : List RVal) :
       | .vector elt dim => decide (vs.length = dim) && allB (fun v => dimsOk elt v) vs
       | _ => true) := by
   rw [dimsOk]; simp only [strip]
+  cases t <;> rfl
 
 theorem dims_set (t : CqlTy) (vs : List RVal) :
     dimsOk t (.set vs) = (match t with
@@ -94,18 +100,21 @@ theorem dims_set (t : CqlTy) (vs : List RVal) :
       | .set elt => allB (fun v => dimsOk elt v) vs
       | _ => true) := by
   rw [dimsOk]; simp only [strip]
+  cases t <;> rfl
 
 theorem dims_map (t : CqlTy) (kvs : List (RVal × RVal)) :
     dimsOk t (.map kvs) = (match t with
       | .map kt vt => allB (fun kv => dimsOk kt kv.1 && dimsOk vt kv.2) kvs
       | _ => true) := by
   rw [dimsOk]; simp only [strip]
+  cases t <;> rfl
 
 theorem dims_tuple (t : CqlTy) (fs : List RVal) :
     dimsOk t (.tuple fs) = (match t with
       | .tuple ts => dimsTuple ts fs
       | _ => true) := by
   rw [dimsOk]; simp only [strip]
+  cases t <;> rfl
 
 theorem hasTypes_length : ∀ (cs : List Carrier) (fs : List RVal), hasTypes cs fs = true → fs.length = cs.length
   | [], [], _ => rfl
@@ -123,7 +132,8 @@ theorem accepts_fits : ∀ (c : Carrier) (t : CqlTy) (x : RVal), accepts c t = t
   | .scalar s, t, x, ha, ht, _, _ => by
     cases x <;> simp [hasType] at ht
     subst ht
-    rw [fits_scalar]; rw [accepts] at ha; exact ha
+    rw [fits_scalar]
+    cases t <;> simp only [accepts] at ha ⊢ <;> exact ha
   | .unset, t, x, _, ht, _, _ => by
     cases x <;> simp [hasType] at ht
     exact fits_unset t
@@ -149,7 +159,7 @@ theorem accepts_fits : ∀ (c : Carrier) (t : CqlTy) (x : RVal), accepts c t = t
     cases x <;> simp [hasType] at ht
     rename_i vs
     rw [fits_vec]; rw [dims_vec] at hd
-    cases t <;> simp only [accepts] at ha hd ⊢ <;> try (exact absurd ha (by simp))
+    cases t <;> simp only [accepts] at ha hd ⊢ <;> try (exact Bool.noConfusion ha)
     · exact allB_imp2 _ _ _ vs (fun v _ h1 h2 => accepts_fits c _ v ha h1 hn h2) ht hd
     · exact allB_imp2 _ _ _ vs (fun v _ h1 h2 => accepts_fits c _ v ha h1 hn h2) ht hd
     · simp only [Bool.and_eq_true] at hd ⊢
@@ -159,7 +169,7 @@ theorem accepts_fits : ∀ (c : Carrier) (t : CqlTy) (x : RVal), accepts c t = t
     cases x <;> simp [hasType] at ht
     rename_i vs
     rw [fits_set]; rw [dims_set] at hd
-    cases t <;> simp only [accepts] at ha hd ⊢ <;> try (exact absurd ha (by simp))
+    cases t <;> simp only [accepts] at ha hd ⊢ <;> try (exact Bool.noConfusion ha)
     · exact allB_imp2 _ _ _ vs (fun v _ h1 h2 => accepts_fits c _ v ha h1 hn h2) ht hd
     · exact allB_imp2 _ _ _ vs (fun v _ h1 h2 => accepts_fits c _ v ha h1 hn h2) ht hd
   | .btreeSet c, t, x, ha, ht, hn, hd => by
@@ -167,7 +177,7 @@ theorem accepts_fits : ∀ (c : Carrier) (t : CqlTy) (x : RVal), accepts c t = t
     cases x <;> simp [hasType] at ht
     rename_i vs
     rw [fits_set]; rw [dims_set] at hd
-    cases t <;> simp only [accepts] at ha hd ⊢ <;> try (exact absurd ha (by simp))
+    cases t <;> simp only [accepts] at ha hd ⊢ <;> try (exact Bool.noConfusion ha)
     · exact allB_imp2 _ _ _ vs (fun v _ h1 h2 => accepts_fits c _ v ha h1 hn h2) ht hd
     · exact allB_imp2 _ _ _ vs (fun v _ h1 h2 => accepts_fits c _ v ha h1 hn h2) ht hd
   | .hashMap k v, t, x, ha, ht, hn, hd => by
@@ -176,7 +186,7 @@ theorem accepts_fits : ∀ (c : Carrier) (t : CqlTy) (x : RVal), accepts c t = t
     cases x <;> simp [hasType] at ht
     rename_i kvs
     rw [fits_map]; rw [dims_map] at hd
-    cases t <;> simp only [accepts] at ha hd ⊢ <;> try (exact absurd ha (by simp))
+    cases t <;> simp only [accepts] at ha hd ⊢ <;> try (exact Bool.noConfusion ha)
     simp only [Bool.and_eq_true] at ha
     refine allB_imp2 (fun kv => hasType k kv.1 && hasType v kv.2) _ _ kvs (fun kv _ h1 h2 => ?_) ht hd
     simp only [Bool.and_eq_true] at h1 h2 ⊢
@@ -187,7 +197,7 @@ theorem accepts_fits : ∀ (c : Carrier) (t : CqlTy) (x : RVal), accepts c t = t
     cases x <;> simp [hasType] at ht
     rename_i kvs
     rw [fits_map]; rw [dims_map] at hd
-    cases t <;> simp only [accepts] at ha hd ⊢ <;> try (exact absurd ha (by simp))
+    cases t <;> simp only [accepts] at ha hd ⊢ <;> try (exact Bool.noConfusion ha)
     simp only [Bool.and_eq_true] at ha
     refine allB_imp2 (fun kv => hasType k kv.1 && hasType v kv.2) _ _ kvs (fun kv _ h1 h2 => ?_) ht hd
     simp only [Bool.and_eq_true] at h1 h2 ⊢
@@ -197,7 +207,7 @@ theorem accepts_fits : ∀ (c : Carrier) (t : CqlTy) (x : RVal), accepts c t = t
     cases x <;> simp [hasType] at ht
     rename_i fs
     rw [fits_tuple]; rw [dims_tuple] at hd
-    cases t <;> simp only [accepts] at ha hd ⊢ <;> try (exact absurd ha (by simp))
+    cases t <;> simp only [accepts] at ha hd ⊢ <;> try (exact Bool.noConfusion ha)
     rename_i ts
     simp only [Bool.and_eq_true, decide_eq_true_eq] at ha ⊢
     have hl := hasTypes_length cs fs ht
@@ -219,6 +229,152 @@ theorem acceptsZip_fits : ∀ (cs : List Carrier) (ts : List CqlTy) (fs : List R
   | c :: cs, t :: ts, f :: fs, ha, ht, hn, hd => by
     simp only [acceptsZip, hasTypes, noDynList, dimsTuple, fitsTuple, Bool.and_eq_true] at ha ht hn hd ⊢
     exact ⟨accepts_fits c t f ha.1 ht.1 hn.1 hd.1, acceptsZip_fits cs ts fs ha.2 ht.2 hn.2 hd.2⟩
+end
+
+/-! ### a mismatched pair is rejected for every fully populated value -/
+
+theorem allB_false_first {α : Type} (r : α → Bool) (vs : List α) (hne : vs.isEmpty = false)
+    (h : ∀ v, v ∈ vs → r v = false) : allB r vs = false := by
+  cases vs with
+  | nil => simp at hne
+  | cons v vs => simp [allB, h v (by simp)]
+
+theorem fullList_mem : ∀ (vs : List RVal) (v : RVal), full.fullList vs = true → v ∈ vs → full v = true
+  | [], _, _, hm => by simp at hm
+  | w :: ws, v, hf, hm => by
+    simp only [full.fullList, Bool.and_eq_true] at hf
+    rcases List.mem_cons.mp hm with rfl | h
+    · exact hf.1
+    · exact fullList_mem ws v hf.2 h
+
+theorem fullPairs_mem : ∀ (kvs : List (RVal × RVal)) (kv : RVal × RVal), full.fullPairs kvs = true → kv ∈ kvs →
+    full kv.1 = true ∧ full kv.2 = true
+  | [], _, _, hm => by simp at hm
+  | (k, v) :: r, kv, hf, hm => by
+    simp only [full.fullPairs, Bool.and_eq_true] at hf
+    rcases List.mem_cons.mp hm with rfl | h
+    · exact ⟨hf.1.1, hf.1.2⟩
+    · exact fullPairs_mem r kv hf.2 h
+
+theorem allB_mem {α : Type} (p : α → Bool) : ∀ (vs : List α) (v : α), allB p vs = true → v ∈ vs → p v = true
+  | [], _, _, hm => by simp at hm
+  | w :: ws, v, hf, hm => by
+    simp only [allB, Bool.and_eq_true] at hf
+    rcases List.mem_cons.mp hm with rfl | h
+    · exact hf.1
+    · exact allB_mem p ws v hf.2 h
+
+mutual
+/-- If the carrier type does not accept the column type, no fully populated value of it passes `ser`'s checks. -/
+theorem reject_full : ∀ (c : Carrier) (t : CqlTy) (x : RVal), accepts c t = false → hasType c x = true →
+    full x = true → fits t x = false
+  | .scalar s, t, x, ha, ht, _ => by
+    cases x <;> simp [hasType] at ht
+    subst ht
+    rw [fits_scalar]
+    cases t <;> simp only [accepts] at ha ⊢ <;> exact ha
+  | .unset, t, x, ha, _, _ => by simp [accepts] at ha
+  | .opt c, t, x, ha, ht, hf => by
+    rw [accepts] at ha
+    cases x <;> simp [hasType] at ht
+    · simp [full] at hf
+    · rw [fits_some]; exact reject_full c t _ ha ht (by simpa [full] using hf)
+  | .maybeUnset c, t, x, ha, ht, hf => by
+    rw [accepts] at ha
+    cases x <;> simp [hasType] at ht
+    · simp [full] at hf
+    · rw [fits_muSet]; exact reject_full c t _ ha ht (by simpa [full] using hf)
+  | .maybeEmpty c, t, x, ha, ht, hf => by
+    rw [accepts] at ha
+    cases x <;> simp [hasType] at ht
+    · simp [full] at hf
+    · rw [fits_meValue]
+      cases hse : t.supportsEmpty with
+      | false => rfl
+      | true =>
+        rw [hse] at ha
+        simp only [Bool.true_and] at ha ⊢
+        exact reject_full c t _ ha ht (by simpa [full] using hf)
+  | .vec c, t, x, ha, ht, hf => by
+    cases x <;> simp [hasType] at ht
+    rename_i vs
+    simp only [full, Bool.and_eq_true, Bool.not_eq_true'] at hf
+    rw [fits_vec]
+    cases t <;> simp only [accepts] at ha ⊢
+    · exact allB_false_first _ vs hf.1 (fun v hv => reject_full c _ v ha (allB_mem _ vs v ht hv) (fullList_mem vs v hf.2 hv))
+    · exact allB_false_first _ vs hf.1 (fun v hv => reject_full c _ v ha (allB_mem _ vs v ht hv) (fullList_mem vs v hf.2 hv))
+    · rw [allB_false_first _ vs hf.1 (fun v hv => reject_full c _ v ha (allB_mem _ vs v ht hv) (fullList_mem vs v hf.2 hv))]
+      simp
+  | .hashSet c, t, x, ha, ht, hf => by
+    cases x <;> simp [hasType] at ht
+    rename_i vs
+    simp only [full, Bool.and_eq_true, Bool.not_eq_true'] at hf
+    rw [fits_set]
+    cases t <;> simp only [accepts] at ha ⊢
+    · exact allB_false_first _ vs hf.1 (fun v hv => reject_full c _ v ha (allB_mem _ vs v ht hv) (fullList_mem vs v hf.2 hv))
+    · exact allB_false_first _ vs hf.1 (fun v hv => reject_full c _ v ha (allB_mem _ vs v ht hv) (fullList_mem vs v hf.2 hv))
+  | .btreeSet c, t, x, ha, ht, hf => by
+    cases x <;> simp [hasType] at ht
+    rename_i vs
+    simp only [full, Bool.and_eq_true, Bool.not_eq_true'] at hf
+    rw [fits_set]
+    cases t <;> simp only [accepts] at ha ⊢
+    · exact allB_false_first _ vs hf.1 (fun v hv => reject_full c _ v ha (allB_mem _ vs v ht hv) (fullList_mem vs v hf.2 hv))
+    · exact allB_false_first _ vs hf.1 (fun v hv => reject_full c _ v ha (allB_mem _ vs v ht hv) (fullList_mem vs v hf.2 hv))
+  | .hashMap k v, t, x, ha, ht, hf => by
+    cases x <;> simp [hasType] at ht
+    rename_i kvs
+    simp only [full, Bool.and_eq_true, Bool.not_eq_true'] at hf
+    rw [fits_map]
+    cases t <;> simp only [accepts] at ha ⊢
+    refine allB_false_first _ kvs hf.1 (fun kv hkv => ?_)
+    have hty := allB_mem (fun kv => hasType k kv.1 && hasType v kv.2) kvs kv ht hkv
+    simp only [Bool.and_eq_true] at hty
+    obtain ⟨hf1, hf2⟩ := fullPairs_mem kvs kv hf.2 hkv
+    rcases Bool.and_eq_false_iff.mp ha with h | h
+    · simp [reject_full k _ kv.1 h hty.1 hf1]
+    · simp [reject_full v _ kv.2 h hty.2 hf2]
+  | .btreeMap k v, t, x, ha, ht, hf => by
+    cases x <;> simp [hasType] at ht
+    rename_i kvs
+    simp only [full, Bool.and_eq_true, Bool.not_eq_true'] at hf
+    rw [fits_map]
+    cases t <;> simp only [accepts] at ha ⊢
+    refine allB_false_first _ kvs hf.1 (fun kv hkv => ?_)
+    have hty := allB_mem (fun kv => hasType k kv.1 && hasType v kv.2) kvs kv ht hkv
+    simp only [Bool.and_eq_true] at hty
+    obtain ⟨hf1, hf2⟩ := fullPairs_mem kvs kv hf.2 hkv
+    rcases Bool.and_eq_false_iff.mp ha with h | h
+    · simp [reject_full k _ kv.1 h hty.1 hf1]
+    · simp [reject_full v _ kv.2 h hty.2 hf2]
+  | .tuple cs, t, x, ha, ht, hf => by
+    cases x <;> simp [hasType] at ht
+    rename_i fs
+    simp only [full] at hf
+    rw [fits_tuple]
+    cases t <;> simp only [accepts] at ha ⊢
+    rename_i ts
+    have hl := hasTypes_length cs fs ht
+    rcases Bool.and_eq_false_iff.mp ha with h | h
+    · have : ¬ fs.length ≤ ts.length := by simp at h; omega
+      simp [this]
+    · rw [rejectZip_full cs ts fs h ht hf]; simp
+  | .dyn, _, _, ha, _, _ => by simp [accepts] at ha
+  | .listIter _, _, _, _, ht, _ => by simp [hasType] at ht
+  | .vecIter _, _, _, _, ht, _ => by simp [hasType] at ht
+  | .mapIter _ _, _, _, _, ht, _ => by simp [hasType] at ht
+  | .udtIter, _, _, _, ht, _ => by simp [hasType] at ht
+  | .raw, _, _, _, ht, _ => by simp [hasType] at ht
+theorem rejectZip_full : ∀ (cs : List Carrier) (ts : List CqlTy) (fs : List RVal), acceptsZip cs ts = false →
+    hasTypes cs fs = true → full.fullList fs = true → fitsTuple ts fs = false
+  | [], ts, fs, ha, _, _ => by simp [acceptsZip] at ha
+  | c :: cs, [], fs, ha, _, _ => by simp [acceptsZip] at ha
+  | c :: cs, t :: ts, [], _, ht, _ => by simp [hasTypes] at ht
+  | c :: cs, t :: ts, f :: fs, ha, ht, hf => by
+    simp only [acceptsZip, hasTypes, full.fullList, fitsTuple, Bool.and_eq_true] at ha ht hf ⊢
+    rcases Bool.and_eq_false_iff.mp ha with h | h
+    · simp [reject_full c t f h ht.1 hf.1]
+    · simp [rejectZip_full cs ts fs h ht.2 hf.2]
 end
 
 end ScyllaVerif.Proofs.CarrierStatic
